@@ -3,7 +3,7 @@
 # In a scratch worktree of /repo HEAD: (1) demo passes without the patch, (2) with the patch the tree compiles, the
 # suite shows only the 3 known failures, and the demo fails. Result is written to <outdir>/verify.json.
 set -u
-name=$1; src=$2
+name=$1; src=$2; extra=${3:-}
 wt=/tmp/seed/verify-wt
 if [ ! -d $wt ]; then git -C /repo worktree add -q --detach $wt HEAD || exit 2; fi
 cd $wt && git checkout -q --detach $(git -C /repo rev-parse HEAD) && git checkout -q -- . && git clean -fdq -e target
@@ -11,10 +11,10 @@ loc=$(python3 -c "import json,sys; print(json.load(open('$src/meta.json')).get('
 case "$loc" in asn1rs-model/*) pkg="-p asn1rs-model";; *) pkg="-p asn1rs";; esac
 tname=$(basename $loc .rs)
 mkdir -p $(dirname $loc) && cp $src/demo.rs $loc
-cargo test --offline $pkg --test $tname > $src/verify_demo_without.log 2>&1; without=$?
+cargo test --offline $pkg $extra --test $tname > $src/verify_demo_without.log 2>&1; without=$?
 if ! git apply --3way $src/patch.diff 2> $src/verify_apply.log; then echo "{\"name\":\"$name\",\"error\":\"patch does not apply\"}" > $src/verify.json; cat $src/verify.json; exit 1; fi
 git reset -q
-cargo test --offline $pkg --test $tname > $src/verify_demo_with.log 2>&1; with=$?
+cargo test --offline $pkg $extra --test $tname > $src/verify_demo_with.log 2>&1; with=$?
 rm -f $loc
 suite=$(/verif/tools/repo_suite.sh $wt | tr '\n' ' ')
 git diff > $src/patch_on_head.diff
